@@ -69,93 +69,68 @@ func extraMoves(l *harness.Live) int {
 	return 2
 }
 
+// walkIterator drives one iterator of e (from Select or from Evaluate) through
+// the whole protocol: every MoveNext()=true must leave Current() on a node of the
+// document, stable across two calls; after the first false, extra further calls
+// must all return false.
+func walkIterator(e *xpath.Expr, l *harness.Live, useEvaluate bool, extra int, what string) (seq []int, f *harness.Failure) {
+	defer func() {
+		if r := recover(); r != nil {
+			if _, ok := r.(xdoc.BudgetExceeded); ok {
+				seq, f = nil, cappedFailure
+				return
+			}
+			seq, f = nil, harness.Failf(what+" completes", fmt.Sprint("panic: ", r), what+" panicked")
+		}
+	}()
+	nav := l.Doc.Nav(l.Flavour, l.Ctx, &xdoc.Budget{Limit: engineBudget})
+	var it *xpath.NodeIterator
+	if useEvaluate {
+		v, ok := e.Evaluate(nav).(*xpath.NodeIterator)
+		if !ok {
+			return nil, harness.Failf("node iterator", fmt.Sprintf("%T", v), "Evaluate of a node-set expression is not a node iterator")
+		}
+		it = v
+	} else {
+		it = e.Select(nav)
+	}
+	for it.MoveNext() {
+		c1 := it.Current()
+		n := xdoc.NodeOf(c1)
+		if n == nil || xdoc.DocOf(c1) != l.Doc {
+			return nil, harness.Failf("Current() on a node of the document", fmt.Sprintf("%T", c1), what+": Current() after MoveNext()=true is not positioned on a document node")
+		}
+		if n2 := xdoc.NodeOf(it.Current()); n2 != n {
+			return nil, harness.Failf(n.Desc(), fmt.Sprint(n2), what+": Current() is not stable between two calls")
+		}
+		seq = append(seq, n.ID)
+		if len(seq) >= harness.MaxResults {
+			return nil, cappedFailure
+		}
+	}
+	for i := 0; i < extra; i++ {
+		if it.MoveNext() {
+			return nil, harness.Failf("MoveNext() stays false once it returned false", fmt.Sprintf("true on extra call %d (now on %v)", i+1, xdoc.NodeOf(it.Current())), what+": iterator restarted or continued after exhaustion")
+		}
+	}
+	return seq, nil
+}
+
 func oracleC12Proto(l *harness.Live) (seq []int, f *harness.Failure) {
 	e, f := compileLive(l)
 	if f != nil {
 		return nil, f
 	}
-	// Select: sequence, Current() discipline, MoveNext after exhaustion
-	var pan *harness.PanicInfo
-	func() {
-		defer func() {
-			if r := recover(); r != nil {
-				pan = &harness.PanicInfo{Value: r, Text: fmt.Sprint(r)}
-			}
-		}()
-		it := e.Select(l.Doc.Nav(l.Flavour, l.Ctx, nil))
-		for it.MoveNext() {
-			c1 := it.Current()
-			n := xdoc.NodeOf(c1)
-			if n == nil || xdoc.DocOf(c1) != l.Doc {
-				f = harness.Failf("Current() on a node of the document", fmt.Sprintf("%T", c1), "Current() after MoveNext()=true is not positioned on a document node")
-				return
-			}
-			if n2 := xdoc.NodeOf(it.Current()); n2 != n {
-				f = harness.Failf(n.Desc(), fmt.Sprint(n2), "Current() is not stable between two calls")
-				return
-			}
-			seq = append(seq, n.ID)
-			if len(seq) >= harness.MaxResults {
-				f = cappedFailure
-				return
-			}
-		}
-		for i := 0; i < extraMoves(l); i++ {
-			if it.MoveNext() {
-				n := xdoc.NodeOf(it.Current())
-				f = harness.Failf("MoveNext() stays false once it returned false", fmt.Sprintf("true on extra call %d (node %v)", i+1, n), "iterator restarted or continued after exhaustion")
-				return
-			}
-		}
-	}()
-	if pan != nil {
-		return nil, harness.Failf("Select completes", pan.Text, "Select panicked")
+	extra := extraMoves(l)
+	if seq, f = walkIterator(e, l, false, extra, "Select(e)"); f != nil {
+		return nil, f
 	}
+	evSeq, f := walkIterator(e, l, true, extra, "Evaluate(e)")
 	if f != nil {
 		return nil, f
 	}
-	// Evaluate: same sequence, and the same discipline after exhaustion
-	func() {
-		defer func() {
-			if r := recover(); r != nil {
-				pan = &harness.PanicInfo{Value: r, Text: fmt.Sprint(r)}
-			}
-		}()
-		if it, ok := e.Evaluate(l.Doc.Nav(l.Flavour, l.Ctx, nil)).(*xpath.NodeIterator); ok {
-			n := 0
-			for it.MoveNext() {
-				if c := xdoc.NodeOf(it.Current()); c == nil || (n < len(seq) && c.ID != seq[n]) {
-					f = harness.Failf(fmt.Sprint(seq), fmt.Sprintf("node %d of Evaluate's iterator is %v", n+1, c), "Evaluate's iterator reports a different node than Select's")
-					return
-				}
-				n++
-				if n > len(seq) {
-					break
-				}
-			}
-			for i := 0; i < extraMoves(l); i++ {
-				if it.MoveNext() {
-					f = harness.Failf("MoveNext() stays false once it returned false", fmt.Sprintf("true on extra call %d of Evaluate's iterator", i+1), "iterator restarted or continued after exhaustion")
-					return
-				}
-			}
-		}
-	}()
-	if pan != nil {
-		return nil, harness.Failf("Evaluate completes", pan.Text, "Evaluate panicked")
-	}
-	if f != nil {
-		return nil, f
-	}
-	v, f := evalWith(e, l)
-	if f != nil {
-		return nil, f
-	}
-	if v.Kind != "nodes" {
-		return nil, harness.Failf("node iterator", v.String(), "Evaluate of a node-set expression is not a node iterator")
-	}
-	if !harness.EqualInts(v.IDs, seq) {
-		return nil, harness.Failf(describe(l.Doc, seq), describe(l.Doc, v.IDs), "Evaluate's iterator yields a different sequence than Select")
+	if !harness.EqualInts(evSeq, seq) {
+		return nil, harness.Failf(describe(l.Doc, seq), describe(l.Doc, evSeq), "Evaluate's iterator yields a different sequence than Select")
 	}
 	// count(e) = length of the sequence
 	ce := &xast.Call{Name: "count", Args: []xast.Expr{l.AST}}
@@ -163,13 +138,16 @@ func oracleC12Proto(l *harness.Live) (seq []int, f *harness.Failure) {
 	cl.AST, cl.Expr = ce, xast.Render(ce)
 	cv, f := engineEval(&cl)
 	if f != nil {
-		f.Note = "count(e): " + f.Note
+		if f != cappedFailure {
+			f.Note = "count(e): " + f.Note
+		}
 		return nil, f
 	}
 	if cv.Kind != "num" || cv.F != float64(len(seq)) {
 		return nil, harness.Failf(fmt.Sprintf("count = %d", len(seq)), cv.String(), "count(e) differs from the length of the sequence e yields")
 	}
-	// reverse(e) = the sequence reversed
+	// reverse(e): the sequence reversed, under the same iterator protocol, from Select,
+	// from Evaluate and from a second Select of the same compiled expression
 	re := &xast.Call{Name: "reverse", Args: []xast.Expr{l.AST}}
 	rl := *l
 	rl.AST, rl.Expr = re, xast.Render(re)
@@ -178,29 +156,21 @@ func oracleC12Proto(l *harness.Live) (seq []int, f *harness.Failure) {
 		f.Note = "reverse(e): " + f.Note
 		return nil, f
 	}
-	rids, f := selectWith(rexpr, &rl)
-	if f != nil {
-		f.Note = "reverse(e): " + f.Note
-		return nil, f
-	}
-	// the same compiled reverse(e): Evaluate and a second Select must agree with the first
-	if rv, f := evalWith(rexpr, &rl); f != nil {
-		f.Note = "reverse(e) Evaluate: " + f.Note
-		return nil, f
-	} else if rv.Kind != "nodes" || !harness.EqualInts(rv.IDs, rids) {
-		return nil, harness.Failf(describe(l.Doc, rids), rv.String(), "Evaluate of reverse(e) yields a different sequence than its Select")
-	}
-	if again, f := selectWith(rexpr, &rl); f != nil {
-		return nil, f
-	} else if !harness.EqualInts(again, rids) {
-		return nil, harness.Failf(describe(l.Doc, rids), describe(l.Doc, again), "a second Select of the same compiled reverse(e) yields a different sequence")
-	}
 	rev := make([]int, len(seq))
 	for i, id := range seq {
 		rev[len(seq)-1-i] = id
 	}
-	if !harness.EqualInts(rids, rev) {
-		return nil, harness.Failf(describe(l.Doc, rev), describe(l.Doc, rids), "reverse(e) is not the sequence of e reversed")
+	for _, w := range []struct {
+		ev   bool
+		what string
+	}{{false, "Select(reverse(e))"}, {true, "Evaluate(reverse(e))"}, {false, "second Select(reverse(e))"}} {
+		rids, f := walkIterator(rexpr, &rl, w.ev, extra, w.what)
+		if f != nil {
+			return nil, f
+		}
+		if !harness.EqualInts(rids, rev) {
+			return nil, harness.Failf(describe(l.Doc, rev), describe(l.Doc, rids), w.what+" is not the sequence of e reversed")
+		}
 	}
 	return seq, nil
 }
